@@ -533,6 +533,11 @@ def descr_fconv(row, rhs, ops):
         fcasts.append(tinfo(e.ty)[1])
         e = e.a[0]
     if e.k != 'cast' or e.x != 'IntegralToFloating':
+        # not the single-cast form: a definite refutation on a rounding-tie operand is a violation; without one the shape
+        # stays undecided (exit 2) - agreement on finitely many points proves nothing
+        w = conversion_witness(rhs, ops[0], srcW, sem['sign'], dstW)
+        if w is not None:
+            return ['conversion is not the correctly rounded one: ' + w]
         raise AnalysisBroken('%s: expected an integer-to-float cast, found %r' % (row['name'], rhs))
     probs = []
     w = tinfo(e.ty)[1]
@@ -631,6 +636,63 @@ def has_var(e):
     return any(x.k == 'var' for x in walk_e(e))
 
 
+def int_to_float(v, width):
+    """exact round-to-nearest-even conversion of a python int to binary32/64 (returned as a python float)"""
+    if width == 64:
+        return float(v)             # CPython converts ints to double with correct rounding
+    p = 24
+    if v == 0:
+        return 0.0
+    neg = v < 0
+    m = -v if neg else v
+    e = m.bit_length()
+    if e > p:
+        sh = e - p
+        q, r = m >> sh, m & ((1 << sh) - 1)
+        half = 1 << (sh - 1)
+        if r > half or (r == half and (q & 1)):
+            q += 1
+        m = q << sh
+    r = float(m)                    # at most 25 significant bits: exact in binary64
+    return -r if neg else r
+
+
+def conversion_points(srcW, sign, dstW):
+    """integer operands around every rounding tie of an integer -> binary32/64 conversion"""
+    p = 24 if dstW == 32 else 53
+    pts = {0, 1, 2, 3, (1 << srcW) - 1, 1 << (srcW - 1), (1 << (srcW - 1)) - 1, (1 << (srcW - 1)) + 1}
+    for e in range(p, srcW):
+        ulp = 1 << (e - p + 1)
+        for k in (0, 1, 2, (1 << (p - 1)) - 2, (1 << (p - 1)) - 1):
+            base = (1 << e) + k * ulp
+            for d in (0, 1, ulp // 2 - 1, ulp // 2, ulp // 2 + 1, ulp - 1):
+                if 0 <= d < ulp:
+                    pts.add(base + d)
+    out = set()
+    for v in pts:
+        v &= (1 << srcW) - 1
+        out.add(v)
+        out.add((-v) & ((1 << srcW) - 1))
+    return sorted(out)
+
+
+def conversion_witness(rhs, op, srcW, sign, dstW):
+    """evaluate an unrecognised conversion template on the tie points; -> description of a refuting operand or None"""
+    for u in conversion_points(srcW, sign, dstW):
+        val = u - (1 << srcW) if (sign == 's' and u >> (srcW - 1)) else u
+        want = int_to_float(val, dstW)
+        try:
+            got = fpoint(rhs, {op: u})
+        except UB as e:
+            return 'operand 0x%X: undefined behaviour (%s)' % (u, e)
+        except AnalysisBroken:
+            return None
+        if isinstance(got, tuple) or got != want:
+            return 'operand 0x%X (%d): the template evaluates to %r (bits 0x%X), correctly rounded conversion gives %r (bits 0x%X)' % (
+                u, val, got, ct.float_bits(got, dstW) if not isinstance(got, tuple) else 0, want, ct.float_bits(want, dstW))
+    return None
+
+
 def fpoint(e, env):
     """value of e with float variables bound to python floats (exact for binary32/64 values)"""
     if e.k == 'var':
@@ -673,7 +735,7 @@ def fpoint(e, env):
                 v -= 1 << d[1]
             return v
         if e.x == 'IntegralToFloating':
-            return float(v)
+            return int_to_float(int(v), d[1])
         if e.x in ('IntegralToBoolean', 'FloatingToBoolean'):
             return int(v != 0)
         return v
@@ -698,6 +760,22 @@ def fpoint(e, env):
             d = tinfo(e.ty)
             if d[0] == 'int':
                 r = int(r) & ((1 << d[1]) - 1)
+                if d[2] and r >> (d[1] - 1):
+                    r -= 1 << d[1]
+            elif d[0] == 'float' and d[1] == 32:
+                r = ct.round_to(r, 32)      # operands are binary32 values: the binary64 result rounds once more without harm
+            return r
+        if e.x in ('>>', '<<', '&', '|', '^') and isinstance(a, int) and isinstance(b, int):
+            d = tinfo(e.ty)
+            la = tinfo(e.a[0].ty)
+            if e.x in ('>>', '<<'):
+                if not 0 <= b < la[1]:
+                    raise UB('shift of a %d-bit value by %d' % (la[1], b))
+                if e.x == '<<' and (a < 0 or (la[2] and (a << b) >> (la[1] - 1))):
+                    raise UB('left shift of a signed value overflows')
+            r = {'>>': a >> b if e.x == '>>' else 0, '<<': a << b if e.x == '<<' else 0, '&': a & b, '|': a | b, '^': a ^ b}[e.x]
+            if d[0] == 'int':
+                r &= (1 << d[1]) - 1
                 if d[2] and r >> (d[1] - 1):
                     r -= 1 << d[1]
             return r
